@@ -755,6 +755,49 @@ PANIC_ALLOWED = {
 }
 
 
+_PINNED_API = None
+
+
+def pinned_api():
+    global _PINNED_API
+    if _PINNED_API is None:
+        import json
+        import os
+        _PINNED_API = set(json.load(open(os.path.join(os.path.dirname(os.path.abspath(__file__)), 'pinned_api.json'))))
+    return _PINNED_API
+
+
+def new_public_root(ctx, key):
+    """key is a public function / method that does not exist in the pinned public API, and no body outside the set of such
+    new public functions (transitively) calls it"""
+    b = ctx.facts.bodies.get(key)
+    if b is None or b.j.get('vis') != 'Public' or b.j.get('def_kind') not in ('Fn', 'AssocFn') or b.j.get('impl_trait'):
+        return False
+    if key in pinned_api():
+        return False
+    callers = fam._callers(ctx.facts)
+    seen = {key}
+    work = [key]
+    while work:
+        k = work.pop()
+        for c in callers.get(k, ()):
+            if c in seen:
+                continue
+            seen.add(c)
+            cb = ctx.facts.bodies.get(c)
+            root = c
+            if cb is not None and cb.j.get('def_kind') == 'Closure':
+                work.append(c)
+                continue
+            if cb is None or cb.j.get('vis') != 'Public' or cb.j.get('impl_trait') or root in pinned_api():
+                if cb is not None and fam.is_delegate(ctx.facts, c):
+                    work.append(c)  # a private helper: look at who calls it
+                    continue
+                return False
+            work.append(c)
+    return True
+
+
 def panic_feasible(ctx, owner, kind):
     """can the API function `owner`, with its private helpers spliced in and constants folded, reach a construct of this kind?
     (True whenever that cannot be decided)"""
@@ -800,8 +843,14 @@ def o2(ctx):
         ctx.oblige(1, sample='%s may panic via %s' % (key, kind))
         ctx.instance('%s %s' % (key, kind))
         if (key, kind) not in PANIC_ALLOWED:
+            if new_public_root(ctx, key):
+                # a public function that the pinned API does not have and that nothing of the pinned API calls: what it may
+                # panic on is part of its own, new contract (a `send_option` that documents `None` as a panic like its sibling);
+                # the inventory is about the behaviour of the existing operations
+                ctx.note('%s: panic-capable construct (%s) in a NEW public function, not charged to the existing API' % (key, kind))
+                continue
             os_ = fam.owners(ctx, key)
-            if fam.is_delegate(ctx.facts, key) and all((o, kind) in PANIC_ALLOWED or not panic_feasible(ctx, o, kind) for o in os_):
+            if fam.is_delegate(ctx.facts, key) and all((o, kind) in PANIC_ALLOWED or new_public_root(ctx, o) or not panic_feasible(ctx, o, kind) for o in os_):
                 # a private helper / closure: the construct is accounted for in every API function it serves, or cannot be
                 # reached from that function (`helper(&mut Some(data))`: the helper's `data.take().unwrap()` folds away)
                 continue
